@@ -75,3 +75,8 @@ QUICK_SCALE = {"C01": 4, "C03": 4, "C05": 3, "C06": 3, "C07": 4, "C08": 4, "C09"
                "C13": 4, "C14": 4, "C15": 4, "C17": 4, "C18": 3, "C19": 3, "C20": 4, "C04": 2}
 for _id, _k in QUICK_SCALE.items():
     CHECKS[_id]["quick"].setdefault("env", {}).setdefault("VERIF_SCALE", str(_k))
+
+# native coverage-guided campaigns (thorough tier only; the oracle is inside the target)
+CHECKS["C18"]["thorough"]["fuzz"] = [{"target": "FuzzCodecBytes", "seconds": 40, "parallel": 16},
+                                     {"target": "FuzzUnpack", "seconds": 20, "parallel": 16}]
+CHECKS["C12"]["thorough"]["fuzz"] = [{"target": "FuzzReassembly", "seconds": 30, "parallel": 16}]
